@@ -4,7 +4,7 @@
   tools/trap_sites.py --list    print the sites found in /repo's current source (function | normalised line)
   tools/trap_sites.py --check   compare them with tools/trap_ledger.json; exit 1 and print the differences if the set changed
 
-A "site" is a line of one of the listed function bodies that contains an indexing / slicing expression `x[..]`, a binary `+ - *`
+A "site" is a line (local identifiers replaced by `_`, so that renaming a variable is not a change) of one of the listed function bodies that contains an indexing / slicing expression `x[..]`, a binary `+ - *`
 or a compound `+= -= *=`, or one of unwrap / expect / unreachable! / panic! / assert.  The ledger classifies every site as
 `checked:<definition in Checked.lean>` (restated there as a partial operation, proved never to fire), `safe:<why>` (cannot
 panic by its type or by a guard on the same lines: usize sums of lengths, an `unwrap` right after the assignment of `Some`), or
@@ -58,6 +58,13 @@ def bodies(text, name):
         res.append(text[i:j + 1])
     return res
 
+KEEP = {"as", "usize", "u32", "i64", "u64", "len", "unwrap", "expect", "if", "else", "let", "mut", "return", "Some", "None", "assert",
+        "saturating_add", "checked_add", "wrapping_add", "min", "max", "count"}
+
+def norm(line):
+    """identifiers other than keywords / the arithmetic-relevant method names become `_`: renaming a variable is not a new site"""
+    return re.sub(r"\b[A-Za-z_]\w*\b", lambda m: m.group(0) if m.group(0) in KEEP else "_", line)
+
 SITE = re.compile(r"[\w\)\]]\[|\s[-+*]=?\s|\.unwrap\(\)|\.expect\(|unreachable!|panic!|\bassert")
 
 def sites():
@@ -70,7 +77,7 @@ def sites():
             for line in body.split("\n"):
                 l = " ".join(line.split())
                 if SITE.search(" " + l + " "):
-                    found.append("%s::%s%s | %s" % (os.path.basename(path), fn, "" if k == 0 else "#%d" % k, l))
+                    found.append("%s::%s%s | %s" % (os.path.basename(path), fn, "" if k == 0 else "#%d" % k, norm(l)))
     return found
 
 def main():
